@@ -15,7 +15,7 @@ ASSUMPTIONS = [
 ]
 
 HOOK_COMMITS = ["aa112f6"]
-FIX_COMMITS = ["536bdea", "2163003", "086d718", "eebbb00", "ae8746e", "813750d", "4dcfce1", "affca7a", "6634824", "7638f19", "8a1300b", "fe98d51", "caf36c4", "e4b64f7", "0c686df", "48a484d"]
+FIX_COMMITS = ["536bdea", "2163003", "086d718", "eebbb00", "ae8746e", "813750d", "4dcfce1", "affca7a", "6634824", "7638f19", "8a1300b", "fe98d51", "caf36c4", "e4b64f7", "0c686df", "48a484d", "a33ca28"]
 NOT_YET = {}
 
 CFG = {
@@ -53,6 +53,13 @@ CFG = {
         "level_note": "Trusted: Lean kernel, Mathlib, hand-written model validated by the correspondence run; parry QBVH box containment assumed (node boxes contain their children); rounding not analysed.",
         "files": ["src/geom2/polyline2.rs", "src/geom2/line2.rs", "src/geom2/curve2.rs"],
         "tol": {"*": 1e-9, "ray.intersections": 1e-7, "ray.param": 1e-6},
+    },
+    "C09": {
+        "cases": {"quick": 800, "thorough": 80000},
+        "level_text": "Theorems (every ordered field): the power sums the code accumulates (loop bound REGENERATED from the source) are complete; any solution of the normal equations makes the weighted residual orthogonal to every monomial and therefore minimises the weighted sum of squares over ALL coefficient vectors; exact data satisfy the normal equations; the series best-fit line solves the degree-1 normal equations. The implementation's coefficients are substituted into the model's normal equations on every run; circle fit / RANSAC clauses are validated per result (partial).",
+        "level_note": "Trusted: Lean kernel, Mathlib, hand-written model validated by the correspondence run; nalgebra try_inverse, the Levenberg-Marquardt driver and the seeded RANSAC draws are external (convergence observed, not proved); rounding not analysed.",
+        "files": ["src/func1/polynomial.rs", "src/func1/common_functions.rs", "src/func1/series1.rs", "src/geom2/circle2.rs", "src/stats.rs"],
+        "tol": {"*": 1e-9, "fit.poly": 1e-4, "fit.line": 1e-6},
     },
     "C11": {
         "cases": {"quick": 1600, "thorough": 160000},
